@@ -132,22 +132,33 @@ def run(ctx, rep):
     rep.count('lexer_arms', len(lt['arms']))
 
     # ---- R08.1 -------------------------------------------------------------------------------
-    A = {}
-    for a in lt['arms']:
-        for lx, tok, first in a['outcomes']:
-            if len(lx) == 2 and tok not in ('<skip>', '<complex>'):
-                A[lx] = (tok, first)
-    B = lt['extra_bump'] or set()
-    rep.table('two_char_tokens', {k: v[0] for k, v in A.items()})
-    rep.table('extra_bump', sorted(B))
+    # read from the lexer's MIR with the first two characters held constant (tables.lexer_outcomes): what matters is which
+    # token comes out and how many characters were consumed, not how the tests are spelled or which helper performs them
+    O = lt['outcomes']
+    unit = lt['unit_tokens']
+    c2s = sorted({k[1] for k in O if k[1] is not None})
+    two = {lx: tok for lx, tok in lt['table'].items() if len(lx) == 2}
+    rep.table('two_char_tokens', two)
     for lx in TWO_CHAR:
-        tok = A.get(lx, (None, None))[0]
-        rep.ob(tok is not None and A[lx][1], 'R08.1', fnp, 'lexeme %s' % lx, 'recognised under a peek test placed before the one-character alternative (token %s)' % tok, loc)
-        rep.ob(tok in B, 'R08.1', fnp, 'second character of %s' % lx, 'token %s is in the set that consumes the second character' % tok, loc)
-    for lx, (tok, _) in A.items():
+        r = O.get((lx[0], lx[1]), [])
+        single = len(r) == 1
+        tok = r[0][0] if single else None
+        rep.ob(single and tok in unit and tok != 'Illegal' and tok != (O[(lx[0], None)][0][0] if len(O[(lx[0], None)]) == 1 else None), 'R08.1', fnp, 'lexeme %s' % lx,
+               'the two characters give one token of their own (token %s), not the one-character token followed by another' % tok, loc)
+        rep.ob(single and r[0][1] == 2, 'R08.1', fnp, 'second character of %s' % lx, 'recognising %s consumes exactly two characters (consumed: %s)' % (tok, r[0][1] if single else r), loc)
+    for lx in two:
         rep.ob(lx in TWO_CHAR, 'R08.1', fnp, 'lexeme %s' % lx, 'only the documented two-character operators are munched', loc)
-    for tok in sorted(B):
-        rep.ob(tok in {v[0] for v in A.values()}, 'R08.1', fnp, 'extra bump for %s' % tok, 'only tokens recognised from two characters consume a second character', loc)
+    # every other (first, second) pair: the second character does not change the token and is not consumed
+    for (c1, c2), r in sorted(O.items(), key=lambda kv: (kv[0][0], kv[0][1] or '')):
+        if c2 is None or c1 + c2 in TWO_CHAR or c1 + c2 == '//':
+            continue
+        alone = O[(c1, None)]
+        if len(alone) != 1 or alone[0][0] not in unit:
+            continue        # identifiers, numbers, strings read on by themselves
+        okp = len(r) == 1 and r[0][0] == alone[0][0] and r[0][1] == 1
+        if not okp:
+            rep.bad('R08.1', fnp, 'lexeme %s before %r' % (c1, c2), 'a one-character token must not depend on or consume the character after it: alone %s, followed by %r: %s' % (alone, c2, r), loc)
+    rep.good('R08.1', fnp, 'one-character tokens', '%d (first, second) character pairs: the second character neither changes nor joins a one-character token' % len(O), loc)
     # one-character prefixes still exist
     for lx in ('=', '!', '<', '>'):
         rep.ob(lx in lt['table'], 'R08.1', fnp, 'lexeme %s' % lx, 'the one-character form is still produced (%s)' % lt['table'].get(lx), loc)
@@ -200,14 +211,9 @@ def run(ctx, rep):
     else:
         rep.bad('R08.2', fnp, 'identifier arm', 'identifier arm not found', loc)
     # whitespace set
-    ws = S.func(LEX, 'is_whitespace')
-    chars = sorted(set(n['code'] for n in find_all(ws['body'], lambda n: n.get('k') == 'lit' and n.get('lit') == 'char')))
-    stm = ws['body']['stmts']
-    pure = len(stm) == 1 and stm[0]['k'] == 's_expr' and stm[0]['expr'].get('k') in ('macro', 'match') and \
-        (stm[0]['expr'].get('name') == 'matches' or stm[0]['expr'].get('k') == 'match')
-    rep.ob(pure, 'R08.2', 'lexer::is_whitespace', 'pure table', 'the whitespace predicate is a single table lookup over character literals '
-           '(any other control flow in front of the table can take code points out of it)', 'src/lexer.rs:%d' % ws['line'])
-    rep.ob(chars == PATTERN_WHITE_SPACE, 'R08.2', 'lexer::is_whitespace', 'Pattern_White_Space', 'whitespace is exactly the 11 code points: %s' % [hex(c) for c in chars], 'src/lexer.rs:%d' % ws['line'])
+    lf = layout_facts(ctx)
+    rep.ob(not lf['undecided'], 'R08.2', 'lexer::is_whitespace', 'pure table', 'for every code point examined the lexer decides skip / no skip from the character alone (undecided: %s)' % [hex(c) for c in lf['undecided']][:5], 'src/lexer.rs')
+    rep.ob(lf['skipped'] == PATTERN_WHITE_SPACE, 'R08.2', 'lexer::is_whitespace', 'Pattern_White_Space', 'whitespace is exactly the 11 code points: %s' % [hex(c) for c in lf['skipped']][:14], 'src/lexer.rs')
 
     # ---- R08.3 -------------------------------------------------------------------------------
     ok, why = slice_boundaries_ok(ctx)
@@ -287,16 +293,9 @@ def run(ctx, rep):
     rep.ob(ok, 'R08.6', fnp, 'numeric token shape', why, loc)
 
     # ---- R08.7 skipping ------------------------------------------------------------------------
-    wsarm = [a for a in lt['arms'] if a['kind'] == 'class' and 'is_whitespace' in (a['guard'] or '')]
-    rep.ob(len(wsarm) == 1 and [o[1] for o in wsarm[0]['outcomes']] == ['<skip>'], 'R08.7', fnp, 'whitespace arm', 'whitespace restarts the scan without a token', loc)
-    cm = [a for a in lt['arms'] if a.get('char') == '/']
-    okc = False
-    if cm:
-        outs = {lx: tok for lx, tok, _ in cm[0]['outcomes']}
-        okc = outs.get('//') == '<skip>' and outs.get('/') == 'Slash'
-        cl = find_all(cm[0]['body'], lambda n: n.get('k') == 'closure')
-        okc = okc and len(cl) == 1 and render(cl[0]['body']) == "c != '\\n'" or (okc and len(cl) == 1 and "'\\n'" in repr(render(cl[0]['body'])))
-    rep.ob(okc, 'R08.7', fnp, 'comment arm', '`//` skips to (not past) the line feed and restarts; a single `/` is Slash', loc)
+    rep.ob(set(PATTERN_WHITE_SPACE) <= set(lf['skipped']), 'R08.7', fnp, 'whitespace arm', 'whitespace restarts the scan without a token', loc)
+    cmt = lf['comment']
+    rep.ob(cmt['skip'] and cmt['slash'] and cmt['pred'] is True, 'R08.7', fnp, 'comment arm', '`//` skips to (not past) the line feed and restarts; a single `/` is Slash', loc)
     # cross-check with MIR: number of Tokenizer::bump call sites in next()
     nb = sum(1 for b, t in lexnext.own_calls() if callee_name(t) == "lexer::Tokenizer::<'a>::bump")
     sb = len(find_all(nxt['body'], lambda n: n.get('k') == 'mcall' and n['method'] == 'bump' and path_of(n['recv']) == ['self']))
@@ -352,22 +351,95 @@ def eval_delta(e, escaped, ch, lets=None):
     return None
 
 
+def layout_facts(ctx):
+    """which characters the lexer skips as whitespace, and what the comment scan does — by constant propagation through the MIR
+    of Tokenizer::next for every code point below U+3001 (+ a few beyond), independent of how the tests are written"""
+    def build():
+        F = ctx.facts()
+        fn = F.fn(tables.LEXNEXT)
+        T = tables.TOK
+        cps = [c for c in range(0, 0x3001)] + [0xFEFF, 0x1680, 0x180E, 0x202F, 0x205F, 0xE000, 0x10000, 0x1F600]
+        skipped = []
+        undecided = []
+        for cp in cps:
+            if 0xD800 <= cp <= 0xDFFF:
+                continue
+            st = {'b': 0}
+
+            def decide(name, argvals, t_, cp=cp, st=st):
+                if name == T + 'bump':
+                    st['b'] += 1
+                    return ('agg', 'core::option::Option', 'Some', (('int', cp, 'char'),)) if st['b'] == 1 else None
+                if name == T + 'peek':
+                    return ('agg', 'core::option::Option', 'None', ())
+                r = tables.char_pred(name, argvals)
+                if r is not None:
+                    return r
+                if name in F.fns and name != tables.LEXNEXT and not name.startswith(T):
+                    return tables.eval_pure(F, name, argvals)
+                return None
+            ps = AbsInt(F, fn, {}, decide_call=decide, max_paths=16).run()
+            kinds = set()
+            for p in ps:
+                r = p.env.get('_0')
+                names = [c[1] for c in p.calls]
+                if p.exit == 'return' and r and r[0] == 'call' and r[1] == tables.LEXNEXT and (T + 'skip_while') not in names and names.count(T + 'bump') == 1:
+                    kinds.add('skip')
+                else:
+                    kinds.add('other')
+            if kinds == {'skip'}:
+                skipped.append(cp)
+            elif 'skip' in kinds:
+                undecided.append(cp)
+        # the comment scan: the closure handed to skip_while after `//`
+        comment = {'skip': False, 'slash': False, 'pred': None}
+        O = tables.lexer_outcomes(ctx)
+        r = O.get(('/', '/'), [])
+        comment['skip'] = len(r) == 1 and r[0][0] == '<skip>' and 'skip_while' in r[0][2]
+        comment['slash'] = all(O.get(('/', c2)) and len(O[('/', c2)]) == 1 and O[('/', c2)][0][0] == 'Slash' and O[('/', c2)][0][1] == 1
+                               for c2 in [k[1] for k in O if k[0] == '/' and k[1] not in (None, '/')] ) and \
+            len(O.get(('/', None), [])) == 1 and O[('/', None)][0][0] == 'Slash'
+        st = {'b': 0}
+        clos = []
+
+        def decide2(name, argvals, t_, st=st):
+            if name == T + 'bump':
+                st['b'] += 1
+                return ('agg', 'core::option::Option', 'Some', (('int', ord('/'), 'char'),)) if st['b'] == 1 else None
+            if name == T + 'peek':
+                return ('agg', 'core::option::Option', 'Some', (('int', ord('/'), 'char'),))
+            if name == T + 'skip_while':
+                for a in argvals:
+                    if isinstance(a, tuple) and a[0] == 'closure':
+                        clos.append(a[1])
+            r_ = tables.char_pred(name, argvals)
+            if r_ is not None:
+                return r_
+            if name in F.fns and name != tables.LEXNEXT and not name.startswith(T):
+                return tables.eval_pure(F, name, argvals)
+            return None
+        AbsInt(F, fn, {}, decide_call=decide2, max_paths=16).run()
+        if len(set(clos)) == 1:
+            cn = clos[0]
+            verdicts = {}
+            for ch in ['\n', '\r', ' ', 'a', '/', '"', '\\', '\t', '\u2028', '0']:
+                for esc in (0, 1):
+                    v = tables.eval_pure(F, cn, [('int', 0, 'env'), ('int', ord(ch), 'char'), ('int', esc, 'bool')])
+                    verdicts[(ch, esc)] = v[1] if v else None
+            comment['pred'] = all(verdicts[(ch, esc)] == (0 if ch == '\n' else 1) for (ch, esc) in verdicts)
+            comment['pred_table'] = {'%r,%d' % k: v for k, v in verdicts.items()}
+        return {'skipped': skipped, 'undecided': undecided, 'comment': comment, 'n': len(cps)}
+    return tables._memo(ctx, 'layout_facts', build)
+
+
 def check_layout(ctx, rep, rule):
-    """whitespace predicate is the pure 11-code-point table; whitespace and `//` arms restart the scan"""
-    S = ctx.syn()
-    lt = tables.lexer_table(ctx)
-    ws = S.func(LEX, 'is_whitespace')
-    chars = sorted(set(n['code'] for n in find_all(ws['body'], lambda n: n.get('k') == 'lit' and n.get('lit') == 'char')))
-    stm = ws['body']['stmts']
-    pure = len(stm) == 1 and stm[0]['k'] == 's_expr' and (stm[0]['expr'].get('name') == 'matches' or stm[0]['expr'].get('k') == 'match')
-    rep.ob(pure and chars == PATTERN_WHITE_SPACE, rule, 'lexer::is_whitespace', 'whitespace table', 'a single table lookup over exactly the 11 Pattern_White_Space code points (pure=%s, %d code points)' % (pure, len(chars)), 'src/lexer.rs:%d' % ws['line'])
-    wsarm = [a for a in lt['arms'] if a['kind'] == 'class' and 'is_whitespace' in (a['guard'] or '')]
-    rep.ob(len(wsarm) == 1 and [o[1] for o in wsarm[0]['outcomes']] == ['<skip>'], rule, 'lexer::Tokenizer::next', 'whitespace arm', 'whitespace restarts the scan without producing a token', 'src/lexer.rs')
-    cm = [a for a in lt['arms'] if a.get('char') == '/']
-    okc = False
-    if cm:
-        outs = {lx: tok for lx, tok, _ in cm[0]['outcomes']}
-        okc = outs.get('//') == '<skip>' and outs.get('/') == 'Slash'
-        cl = find_all(cm[0]['body'], lambda n: n.get('k') == 'closure')
-        okc = okc and len(cl) == 1 and render(cl[0]['body']) == "c != '\\n'"
-    rep.ob(okc, rule, 'lexer::Tokenizer::next', 'comment arm', '`//` skips exactly to the next line feed (the predicate is `c != \'\\n\'`, independent of escapes) and restarts', 'src/lexer.rs')
+    """the lexer skips exactly the 11 Pattern_White_Space code points; `//` skips to the line feed; both restart the scan"""
+    lf = layout_facts(ctx)
+    loc = 'src/lexer.rs'
+    rep.ob(lf['skipped'] == PATTERN_WHITE_SPACE and not lf['undecided'], rule, 'lexer::is_whitespace', 'whitespace table',
+           'of %d code points examined the lexer skips exactly the 11 Pattern_White_Space ones: skipped %s%s' % (
+               lf['n'], [hex(c) for c in lf['skipped']][:14], (', undecided %s' % [hex(c) for c in lf['undecided']][:5]) if lf['undecided'] else ''), loc)
+    rep.ob(set(PATTERN_WHITE_SPACE) <= set(lf['skipped']), rule, 'lexer::Tokenizer::next', 'whitespace arm', 'whitespace restarts the scan without producing a token', loc)
+    c = lf['comment']
+    rep.ob(c['skip'] and c['slash'] and c['pred'] is True, rule, 'lexer::Tokenizer::next', 'comment arm',
+           '`//` skips exactly to the next line feed (predicate true for every character but the line feed, with or without the escape flag: %s) and restarts; a single `/` is Slash (%s)' % (c['pred'], c['slash']), loc)
